@@ -1,5 +1,5 @@
 (** C07 / C12 on graphs with binds, faults of the CUTOFF function and plans with writes and ONE
-    fault of any kind.
+    fault of any kind.  (ANY number of faults in one serial plan: C07_binds_multi_fault.v.)
 
     [C07_binds_cut_error] / [C07_binds_cut_panic]: the cutoff function of node [x] ([WCut])
     returns an error / panics in a serial pass on a graph with binds (which may swap in the
